@@ -291,7 +291,7 @@ def run(repo: Repo, chk: Check) -> None:
 
     class ChainHooks(Hooks):
         def inline(self, it, fi):
-            return fi.qualname == gv.qualname
+            return fi.qualname in (gv.qualname, f'{CTX}.register_big_map', f'{CTX}.get_tmp_big_map_id')
 
         def attr(self, it, obj, name, node):
             if isinstance(obj, Sym) and obj.name == 'shell':
@@ -316,10 +316,20 @@ def run(repo: Repo, chk: Check) -> None:
                 return False  # a node is attached
             return None
 
-    cases = [('storage big_map 5', 5, 5), ('copy -1 of on-chain big_map 7', -1, 7), ('fresh big_map -2 (never registered)', -2, None), ('unknown id 9', 9, None)]
-    for label, ptr, src in cases:
-        ctx = Obj(CTX, {'tzt': False, 'big_maps': {5: (5, False), -1: (7, True)}, 'shell': Sym('shell'), 'block_id': 'head'})
-        res = Interp(repo, ChainHooks(), max_depth=2).run_method(gv, lambda ctx=ctx, ptr=ptr: (ctx, [ptr, Sym('key_hash', 'str')], {}))
+    # the registry is filled by the real register_big_map (whatever it stores per entry), then read by the real get_big_map_value
+    reg = repo.func(f'{CTX}.register_big_map')
+    cases = [('storage big_map 5', 'storage', 5), ('a copy of on-chain big_map 7', 'copy', 7), ('a fresh big_map (never registered)', 'fresh', None), ('unknown id 9', 'unknown', None)]
+    for label, which, src in cases:
+        def go(i, which=which):
+            ctx = Obj(CTX, {'tzt': False, 'big_maps': {}, 'tmp_big_map_index': 0, 'shell': Sym('shell'), 'block_id': 'head'})
+            i.call_function(FuncRef(reg, ctx, True), [5], {}, None, force_inline=True)
+            cp = i.call_function(FuncRef(reg, ctx, True), [7], {'copy': True}, None, force_inline=True)
+            if not isinstance(cp, int) or cp >= 0:
+                raise AnalysisError(f'register_big_map(copy=True) did not hand out a temporary (negative) identifier: {vrepr(cp)}')
+            ptr = {'storage': 5, 'copy': cp, 'fresh': cp - 1, 'unknown': 9}[which]
+            return i.call_function(FuncRef(gv, ctx, True), [ptr, Sym('key_hash', 'str')], {}, None, force_inline=True)
+
+        res = Interp(repo, ChainHooks(), max_depth=3).run_paths(go)
         queried = sorted({a[1] for p in res for e in p.events if isinstance(e, tuple) and e[0] == 'chain-query' for a in e[1] if isinstance(a, tuple) and a[0] == '[]' and isinstance(a[1], int)})
         outs = sorted({vrepr(p.value) if p.outcome == 'return' else 'raise ' + p.value.cls for p in res})
         if src is None:
